@@ -44,7 +44,8 @@ fn main() {
     let mut dbops: Vec<api::DbOp> = vec![];
     let mut moves = "nnpnppnnnpnpp".to_string();
     let mut reuse = false;
-    let mut only_fault: Option<(usize, bool)> = None;
+    let mut only_fault: Option<(usize, String)> = None;
+    let mut modes: Vec<String> = vec!["transient".to_string(), "sticky".to_string()];
     let mut raw_bytes: Vec<Vec<u8>> = vec![];
     let mut blooms: Vec<(usize, Vec<Vec<u8>>)> = vec![];
     let mut encodes: Vec<(u64, Vec<(Vec<u8>, Option<Vec<u8>>)>)> = vec![];
@@ -83,7 +84,8 @@ fn main() {
             "encode" => encodes.push((t[1].parse().unwrap(), t[2..].chunks(2).map(|c| (unhex(c[0]), if c[1] == "!" { None } else { Some(unhex(c[1])) })).collect())),
             "moves" => moves = t[1].to_string(),
             "reuse" => reuse = t[1] == "1",
-            "fault" => only_fault = Some((t[1].parse().unwrap(), t[2] == "sticky")),
+            "fault" => only_fault = Some((t[1].parse().unwrap(), t[2].to_string())),
+            "modes" => modes = t[1..].iter().map(|x| x.to_string()).collect(),
             "file" => files.push((
                 api::ikey(&unhex(t[1]), t[2].parse().unwrap(), 1),
                 api::ikey(&unhex(t[3]), t[4].parse().unwrap(), 1),
@@ -251,12 +253,12 @@ fn main() {
             let dbops = std::sync::Arc::new(dbops);
             let keys = std::sync::Arc::new(keys);
             // (outcome, panicked, hung)
-            let run_one = |fail_at: Option<usize>, sticky: bool| -> Result<api::faults::Outcome, String> {
+            let run_one = |fail_at: Option<usize>, mode: String| -> Result<api::faults::Outcome, String> {
                 let (tx, rx) = std::sync::mpsc::channel();
                 let o = std::sync::Arc::clone(&dbops);
                 let k = std::sync::Arc::clone(&keys);
                 std::thread::spawn(move || {
-                    let r = std::panic::catch_unwind(std::panic::AssertUnwindSafe(|| api::faults::run(&o, &k, fail_at, sticky, reuse)));
+                    let r = std::panic::catch_unwind(std::panic::AssertUnwindSafe(|| api::faults::run(&o, &k, fail_at, &mode, reuse)));
                     let _ = tx.send(r.map_err(|e| format!("panic: {}", e.downcast_ref::<String>().cloned().or(e.downcast_ref::<&str>().map(|s| s.to_string())).unwrap_or_default())));
                 });
                 match rx.recv_timeout(std::time::Duration::from_secs(20)) {
@@ -264,30 +266,30 @@ fn main() {
                     Err(_) => Err("hang (no answer within 20 s)".to_string()),
                 }
             };
-            let clean = run_one(None, false);
+            let clean = run_one(None, "transient".to_string());
             let n = match &clean {
                 Ok(o) if o.bad.is_empty() => o.calls,
                 Ok(o) => { println!("REPLAY violated oracle=faults fault=none {}", o.bad.join("; ")); return; }
                 Err(e) => { println!("REPLAY inconclusive oracle=faults fault=none {}", e); return; }
             };
-            let positions: Vec<(usize, bool)> = match only_fault {
+            let positions: Vec<(usize, String)> = match only_fault {
                 Some(p) => vec![p],
-                None => (0..n).flat_map(|k| [(k, false), (k, true)]).collect(),
+                None => (0..n).flat_map(|k| modes.iter().map(move |m| (k, m.clone()))).collect(),
             };
             let mut bad = vec![];
             let mut not_judged = 0usize;
             let mut judged = 0usize;
-            for (k, sticky) in positions {
-                match run_one(Some(k), sticky) {
+            for (k, mode) in positions {
+                match run_one(Some(k), mode.clone()) {
                     Ok(o) => {
                         judged += 1;
                         if !o.bad.is_empty() {
-                            let msg = format!("fault={} {} hit=[{}] :: {} (+{} more) :: trace: {}", k, if sticky { "sticky" } else { "transient" }, o.fired.join(", "), o.bad[0], o.bad.len() - 1, o.trace.join(" | "));
+                            let msg = format!("fault={} {} hit=[{}] :: {} (+{} more) :: trace: {}", k, mode, o.fired.join(", "), o.bad[0], o.bad.len() - 1, o.trace.join(" | "));
                             if std::env::var("VERIF_FAULTS_VERBOSE").is_ok() { eprintln!("faults: {}", msg); }
                             if bad.len() < 2 { bad.push(msg); }
                         }
                     }
-                    Err(e) => { not_judged += 1; if std::env::var("VERIF_FAULTS_VERBOSE").is_ok() { eprintln!("faults: k={} sticky={} not judged: {}", k, sticky, e); } }
+                    Err(e) => { not_judged += 1; if std::env::var("VERIF_FAULTS_VERBOSE").is_ok() { eprintln!("faults: k={} mode={} not judged: {}", k, mode, e); } }
                 }
             }
             if bad.is_empty() { println!("REPLAY holds oracle=faults fs_calls={} fault_runs={} not_judged={}", n, judged, not_judged); }
